@@ -1125,6 +1125,7 @@ class SetConfigMessage(MessagePayload):
 
     def unpack(self, buffer: bytes, offset: int = 0, message_version: int = MessagePayload._UNSPECIFIED_VERSION) -> int:
         parsed = self.SetConfigMessageConstruct.parse(buffer[offset:])
+        self.interface = None
 
         config_change_data = parsed.config_change_data
         if parsed.config_type == ConfigType.INTERFACE_CONFIG:
